@@ -2,6 +2,7 @@ package fw
 
 import (
 	"crypto/sha1"
+	"encoding/hex"
 	"encoding/json"
 	"fmt"
 	"os"
@@ -45,7 +46,55 @@ type Finding struct {
 		// ClassRegex narrows an entry to the failed clauses it documents (a predicate on the input
 		// alone would otherwise also swallow other kinds of failure on the same inputs)
 		ClassRegex string `json:"class_regex,omitempty"`
+		// Listed narrows an entry to the very violations the unchanged tree shows: the pair
+		// (case, class) must be in known_cases/<finding id>.json (hashed keys, written once by
+		// scripts/list_known.sh from complete quick and thorough runs on the pinned tree)
+		Listed bool `json:"listed,omitempty"`
 	} `json:"match"`
+	listed map[string]bool
+}
+
+// ListKey is the key of a violation in the lists of known cases.
+func ListKey(v *Violation) string {
+	h := sha1.Sum([]byte(v.Case + "|" + v.Class))
+	return hex.EncodeToString(h[:8])
+}
+
+var listDumpDir = os.Getenv("VERIF_LIST_DUMP")
+var listDumps = map[string]*os.File{}
+
+func (f *Finding) inList(v *Violation) bool {
+	k := ListKey(v)
+	if listDumpDir != "" {
+		// list-building mode (scripts/list_known.sh): everything the other criteria accept is taken and written out
+		fh := listDumps[f.ID]
+		if fh == nil {
+			fh, _ = os.OpenFile(filepath.Join(listDumpDir, fmt.Sprintf("%s.%d.txt", f.ID, os.Getpid())), os.O_CREATE|os.O_WRONLY|os.O_APPEND, 0o644)
+			listDumps[f.ID] = fh
+		}
+		if fh != nil {
+			fmt.Fprintln(fh, k)
+		}
+		return true
+	}
+	if f.listed == nil {
+		b, err := os.ReadFile(filepath.Join(Root(), "known_cases", f.ID+".json"))
+		var l struct {
+			Keys []string `json:"keys"`
+		}
+		if err == nil {
+			err = json.Unmarshal(b, &l)
+		}
+		if err != nil {
+			fmt.Fprintf(os.Stderr, "HARNESS-ERROR known_cases/%s.json: %v\n", f.ID, err)
+			os.Exit(2)
+		}
+		f.listed = make(map[string]bool, len(l.Keys))
+		for _, x := range l.Keys {
+			f.listed[x] = true
+		}
+	}
+	return f.listed[k]
 }
 
 func loadFindings() []Finding {
@@ -106,6 +155,9 @@ func (f *Finding) matches(p *Property, v *Violation) bool {
 			return false
 		}
 	}
+	if m.Listed && !f.inList(v) {
+		return false
+	}
 	return true
 }
 
@@ -151,7 +203,7 @@ func RunCheck(p *Property, tier string) int {
 	nsh := envInt("VERIF_SHARDS", 16)
 	budget := 150
 	if tier == "thorough" {
-		budget = 1500
+		budget = 3600
 	}
 	budget = envInt("VERIF_DEADLINE_S", budget)
 	hang := envInt("VERIF_HANG_S", 60)
